@@ -366,7 +366,7 @@ Proof.
   rewrite parse_version_complete; [|exact Hd1|exact Hd2|].
   2:{ unfold fits in *. rewrite Hline in Hf. rewrite !lenN_app in *. cbn [lenN] in *. lia. }
   cbn [r_major set_proto].
-  assert (d1 - 48 =? 0 = false) as -> by lia.
+  assert (d1 - 48 =? 0 = false) as -> by (clear - R1 Hnz; lia).
   (* delimiter before the version *)
   rewrite tok_skipAllTrailing_app.
   2: cbn [forallb delim]; rewrite Fsp; reflexivity.
@@ -378,10 +378,10 @@ Proof.
   unfold parse_uri. rewrite tok_prefix_eq_spec. unfold prefix_spec.
   rewrite takeN_all by exact Hft.
   rewrite (forallb_span (target_chars false) t Htall). cbn [fst].
-  rewrite dropN_all by lia.
+  rewrite dropN_all by apply N.le_refl.
   assert (Hmt : match t with [] => None | _ :: _ => Some (t, @nil N) end = Some (t, [])) by (destruct t; [congruence|reflexivity]).
   rewrite Hmt.
-  assert (req_max_uri <? lenN t = false) as -> by lia.
+  assert (req_max_uri <? lenN t = false) as -> by (clear - Htlen; lia).
   eexists. split; [reflexivity|]. cbn [r_mimg r_mid r_uri r_http r_major r_minor set_code set_uri set_proto set_method].
   repeat split; reflexivity.
 Qed.
